@@ -88,17 +88,38 @@ func ruleC20_2(c *Ctx) {
 					stores = append(stores, st{ptr.Path[0].Index, val, ev})
 				}
 			}
+			// the same assignment written as a copy of a whole array value built in a temporary
+			if ptr.Obj != nil && ptr.Obj.Kind == "alloc" && len(ptr.Path) == 0 && val != nil && val.Op == "agg" && len(val.Args) == 6 {
+				if ev := in.Emit(fr, "store:local", site, ptr.Obj.ID, []*sym.Term{ptr, val}, nil); ev != nil {
+					for k, a := range val.Args {
+						stores = append(stores, st{int64(k), a, ev})
+					}
+				}
+			}
 		}
 		in.Run(fn, nil, nil)
 		// the six stores inside the loop define the step; the same object's six stores before the loop are the start
 		var step, start [6]*sym.Term
+		// the accumulator is the local that is assigned both before and inside the loop
+		inLoop, outLoop := map[string]int{}, map[string]int{}
+		for _, s := range stores {
+			if len(s.ev.Loops) == 1 {
+				inLoop[s.ev.Callee]++
+			} else if len(s.ev.Loops) == 0 {
+				outLoop[s.ev.Callee]++
+			}
+		}
+		for id := range inLoop {
+			if outLoop[id] > 0 && (aAlloc == "" || id < aAlloc) {
+				aAlloc = id
+			}
+		}
 		for _, s := range stores {
 			if s.k < 0 || s.k > 5 {
 				continue
 			}
-			if len(s.ev.Loops) == 1 {
+			if len(s.ev.Loops) == 1 && s.ev.Callee == aAlloc {
 				step[s.k] = s.val
-				aAlloc = s.ev.Callee
 			}
 		}
 		for _, s := range stores {
